@@ -234,7 +234,19 @@ def strict_equal(a, b, dtypes=False):
 
 def route_event(rng, T):
     f = build_frame(T).rename('nm')
-    route = rng.choice(['pairs', 'records', 'items', 'dict_records', 'pickle', 'deepcopy', 'pickle_series'])
+    route = rng.choice(['pairs', 'records', 'items', 'dict_records', 'dict_records', 'dict_records_items', 'json', 'pickle', 'deepcopy', 'pickle_series'])
+    if rng.random() < 0.5 and f.columns.depth == 1:
+        # a column with explicit None cells (a str column whose missing value is None, or nothing but None): present-but-None is not absent
+        n = len(f)
+        pool = [None] * n if rng.random() < 0.3 else [rng.choice([None, 'v%d' % i, None, 'w']) for i in range(n)]
+        a = np.empty(n, dtype=object)
+        a[:] = pool
+        cols = list(f.iter_array(axis=0))
+        at = rng.randint(0, len(cols))
+        cols.insert(at, a)
+        labels = list(f.columns)
+        labels.insert(at, 'zN')
+        f = sf.Frame.from_items(zip(labels, cols), index=f.index, name='nm')
     try:
         if route == 'pairs':
             pairs = f.to_pairs(0)
@@ -253,6 +265,19 @@ def route_event(rng, T):
             cols = [arr.tolist() for arr in f.iter_array(axis=0)]
             g = sf.Frame.from_dict_records([dict(zip(f.columns, [c[i] for c in cols])) for i in range(len(f))], index=f.index)
             eq = strict_equal(f, g)
+        elif route == 'dict_records_items':
+            if f.columns.depth != 1 or f.index.depth != 1:
+                return None
+            cols = [arr.tolist() for arr in f.iter_array(axis=0)]
+            g = sf.Frame.from_dict_records_items((lab, dict(zip(f.columns, [c[i] for c in cols]))) for i, lab in enumerate(f.index))
+            eq = strict_equal(f, g)
+        elif route == 'json':
+            import json
+            if f.columns.depth != 1 or not all(isinstance(c, str) for c in f.columns):
+                return None
+            cols = [arr.tolist() for arr in f.iter_array(axis=0)]
+            g = sf.Frame.from_json(json.dumps([dict(zip(f.columns, [c[i] for c in cols])) for i in range(len(f))]))
+            eq = strict_equal(f.relabel(index=sf.IndexAutoFactory), g)
         elif route in ('pickle', 'deepcopy'):
             g = pickle.loads(pickle.dumps(f)) if route == 'pickle' else copy.deepcopy(f)
             eq = strict_equal(f, g, dtypes=True) and g.name == f.name and g.index.__class__ is f.index.__class__ and g.columns.__class__ is f.columns.__class__
@@ -322,7 +347,7 @@ def main(ctx):
                 ctx.violation(ev['leg'], 'delimited export / import: ' + clause, case={'T': ev['T'], 'cfg': ev['cfg']}, actual={'lines': [''.join(x) for x in ev['lines']], 'res': ev['res']}, clause=clause, expected=rej[ev['id']][1])
     ctx.sample({'leg': 'V', 'event': {'cfg': events[nR]['cfg'], 'lines': [''.join(x) for x in events[nR]['lines']]}})
     return ctx.finish(rule='M/R: two-row table, string index, one string column whose two cells range over all texts of <=2 (thorough 3) characters from {a, 1, blank, delimiter, quote} x delimiters comma / tab / pipe; every enumerated table written and read by the real Frame. '
-                           'V: random tables (1-4 rows, index depth 1-3, columns depth 1-2, 1-4 columns of int (incl. +-2^31) / float quarters with NaN / bool / str cells over an alphabet with both delimiters, quote, blanks, digit-looking, Boolean-looking and StoreFilter words) x 4 delimiters x 2 quote characters x default / disabled StoreFilter x to_csv / to_tsv / to_delimited; pairs, records, items, dict-records, pickle, deepcopy routes')
+                           'V: random tables (1-4 rows, index depth 1-3, columns depth 1-2, 1-4 columns of int (incl. +-2^31) / float quarters with NaN / bool / str cells over an alphabet with both delimiters, quote, blanks, digit-looking, Boolean-looking and StoreFilter words) x 4 delimiters x 2 quote characters x default / disabled StoreFilter x to_csv / to_tsv / to_delimited; pairs, records, items, dict-records, dict-records-items, JSON records, pickle, deepcopy routes, half of them with an added column holding explicit None cells (some or all)')
 
 
 def replay(rec):
